@@ -383,13 +383,75 @@ class Lane(LaneBase):
         g = impl.new_graph(case['cls'], case.get('gmeta') or None)
         for op in case['ops']:
             impl.apply_op(g, op)
+            if case.get('seed', 0) % 2:
+                histories.warm_caches(g)
+                try:
+                    g.to_dict(), hash(g)
+                except Exception:  # noqa: BLE001
+                    pass
         return g
+
+    def edit_oracle(self, case, rng):
+        """serialise, then edit attributes through the handles the API hands out (node.variable_type, node.meta,
+        edge.meta, graph.meta) and serialise again: the second dictionary must be what a twin that was never serialised
+        before the same edits gives (to_dict depends on the current state only, not on the history of queries)"""
+        from cai_causal_graph.type_definitions import NodeVariableType
+        g, twin = self.build(case), self.build(case)
+        try:
+            g.to_dict(), g.to_dict(include_meta=False), hash(g), repr(g), g.copy()
+        except Exception:  # noqa: BLE001
+            return []
+
+        def edit(x):
+            r = random.Random(case.get('seed', 0))
+            done = []
+            nodes, edges = x.get_nodes(), x.get_edges()
+            if nodes:
+                n = r.choice(nodes)
+                n.variable_type = r.choice([v for v in NodeVariableType if v != n.variable_type])
+                n.meta['edited'] = [1, {'a': None}]
+                done.append('node')
+            if edges:
+                e = r.choice(edges)
+                e.meta['edited'] = {'k': [2]}
+                done.append('edge')
+            x.meta['edited'] = 'g'
+            return done
+        try:
+            edit(g)
+            edit(twin)
+            a, b = through_json(g.to_dict()), through_json(twin.to_dict())
+            bad = []
+            if dict_text(a) != dict_text(b):
+                bad.append('to_dict after direct attribute edits differs from a never-serialised twin with the same edits '
+                           '(to_dict depends on the query history)')
+            a0, b0 = through_json(g.to_dict(include_meta=False)), through_json(twin.to_dict(include_meta=False))
+            if dict_text(a0) != dict_text(b0):
+                bad.append('to_dict(include_meta=False) after direct attribute edits differs from a never-serialised twin')
+            h = type(g).from_dict(a, validate=False)
+            if not g.__eq__(h, deep=True) or not h.__eq__(g, deep=True):
+                bad.append('from_dict(to_dict(g)) is not deeply equal to g after direct attribute edits')
+            c = g.copy()
+            if not g.__eq__(c, deep=True):
+                bad.append('copy() is not deeply equal to g after direct attribute edits')
+            return bad
+        except Exception as e:  # noqa: BLE001
+            return [f'serialisation after direct attribute edits raised {type(e).__name__}']
 
     def run_case(self, case):
         g = self.build(case)
         rng = random.Random(case.get('seed', 0))
         if case['kind'] == 'mut':
             return self.run_mut(case, g, rng)
+        if case.get('seed', 0) % 4 == 0 and not getattr(self, '_in_edit', False):
+            self._in_edit = True
+            try:
+                r = self.run_case(case)
+            finally:
+                self._in_edit = False
+            r['oracle'] = list(r.get('oracle', [])) + self.edit_oracle(case, rng)
+            r['tags'] = list(r.get('tags', [])) + ['attribute-edits']
+            return r
         cls = case['cls']
         Cls = type(g)
         tok = enc_graph(g)
